@@ -406,6 +406,37 @@ func runC10(r *Run) {
 	} else {
 		r.Bad("R10", "anchor/GetTokenPairID", "", "not found")
 	}
+	r.Rule("R11", "REACH.no-nested-evm-under-a-precompile: a precompile handler runs while the calling transaction's StateDB holds cached balances and contract storage; a second EVM execution on the same SDK context (the erc20 keeper's CallEVM → EVM keeper ApplyMessage, with a StateDB of its own that is committed straight to the context) changes token-contract storage behind that cache, and the outer StateDB's final Commit writes its stale slots over it. No handler of a wired precompile reaches CallEVM / CallEVMWithData / ApplyMessage* — the ICS-20 precompile's transfer does, through the transfer keeper's automatic ERC20→coin conversion: the burn of the converted tokens is overwritten and the tokens exist twice")
+	{
+		sc := scopesOf(r)
+		nH := 0
+		for _, m := range wiredPrecompiles(r) {
+			if !m.Stateful {
+				continue
+			}
+			for _, h := range m.Handlers {
+				if h.Fn == nil || !h.IsTx {
+					continue
+				}
+				nH++
+				rs := sc.G.Reach(map[*ssa.Function]string{h.Fn: "handler"}, nil)
+				var hit *ssa.Function
+				for _, f := range rs.HaqqFuncs() {
+					if pathHasSuffix(fnPkgPath(f), "x/evm/keeper") && strings.HasPrefix(f.Name(), "ApplyMessage") {
+						if hit == nil || fnID(f) < fnID(hit) {
+							hit = f
+						}
+					}
+				}
+				if hit == nil {
+					r.OK("R11", fnID(h.Fn)+"#no-nested-evm", P.Pos(fnPos(h.Fn)), "no EVM execution reachable")
+					continue
+				}
+				r.Bad("R11", fnID(h.Fn)+"#no-nested-evm", P.Pos(fnPos(h.Fn)), "the handler can start a second EVM execution on the same context: token-contract storage changed by it (a burn during ERC20→coin conversion) is overwritten by the calling transaction's cached slots at its final Commit — converted tokens stay with the holder although the coins left the escrow", rs.Chain(hit)...)
+			}
+		}
+		r.Floor("R11", "transaction handlers of wired precompiles", nH, 15)
+	}
 	r.Rule("R6", "PATH+FLOW.hook-guards: in PostTxProcessing the payout (MintCoins / CallEVM burn / SendCoinsFromModuleToAccount) is reachable only over the passing edges of: hook enabled (EnableErc20, EnableEVMHook), event name == Transfer, positive amount, registered pair found, recipient topic == ModuleAddress, pair.Enabled; the coin amount derives from the event data, the denom from the pair, the payee from topic 1, the burned contract is the log's address")
 	if fn, ok := P.FnOK("(" + erc20K + ".Keeper).PostTxProcessing"); ok {
 		isPayout := isCallMatching(func(ci CallInfo) bool {
